@@ -107,19 +107,40 @@ def headerLine (line : Line) (i : Nat) (s : PSt) : PM PSt := do
     passages := dictSet s.passages name { id := name, params := params.map paramJ, tags := tags }
     cur := some name }
 
+def isJoinTarget (ch : List (String × J)) : Bool :=
+  match ch.lookup "target" with
+  | some (.str t) => strEq t "@join"
+  | _ => false
+
+/-- a top-level choice line: the choice dict (with its section and, for `-> @join`, its block) and the
+number of block lines consumed after it -/
+def topChoice (lines : Lines) (i : Nat) (line : Line) (sec : Nat) : PM (J × Nat) := do
+  match (← liftPy "validate_choice_syntax" (validateChoice line)) with
+  | some _ => synErr i "Malformed Choice"
+  | none => pure ()
+  match (← parseChoiceLine line) with
+  | none => synErr i "Internal Error: Choice validation passed but parsing failed"
+  | some ch =>
+    if isJoinTarget ch then do
+      let (bc, be, n) ← extractJoinBlock lines (i + 1) (indentOf line)
+      pure (.obj (ch ++ [("section", .num sec)] ++ (if bc.isEmpty then [] else [("block_content", .arr bc)])
+                     ++ (if be.isEmpty then [] else [("block_execute", .arr be)])), n)
+    else pure (.obj (ch ++ [("section", .num sec)]), 0)
+
 /-- the `while i < len(lines)` of `_parse_source` -/
 def coreLoop (O : PyOracle) (lines : Lines) : Nat → Nat → PSt → PM PSt
   | 0, _, _ => .error .fuel
   | f + 1, i, s =>
     if h : i < lines.size then
-      let line := lines[i]
-      let st := stripL line
+      match lines[i], stripL lines[i] with
+      | line, st =>
       -- imports section
       if s.inImports && (st.isEmpty || sw st "#") then coreLoop O lines f (i + 1) s
       else if s.inImports && (sw st "import " || sw st "from ") then
         coreLoop O lines f (i + 1) { s with imports := s.imports ++ [line] }
       else
-        let s := { s with inImports := false }
+        match ({ s with inImports := false } : PSt) with
+        | s =>
         if strEq st "@metadata" then coreLoop O lines f (i + 1) { s with inMeta := true }
         else if s.inMeta && st.isEmpty then coreLoop O lines f (i + 1) s
         else if s.inMeta && (sw line " " || sw line "\t") && st.contains ':' then
@@ -127,7 +148,8 @@ def coreLoop (O : PyOracle) (lines : Lines) : Nat → Nat → PSt → PM PSt
           | some (k, v) => coreLoop O lines f (i + 1) { s with metadata := dictSet s.metadata (stripL k) (stripL v) }
           | none => .error (.internal "metadata split")
         else
-          let s := { s with inMeta := false }
+          match ({ s with inMeta := false } : PSt) with
+          | s =>
           if sw st "@start " then coreLoop O lines f (i + 1) { s with explicitStart := some (stripL (st.drop 7)) }
           else if sw line ":: " then do
             let s ← headerLine line i s
@@ -165,10 +187,9 @@ def coreLoop (O : PyOracle) (lines : Lines) : Nat → Nat → PSt → PM PSt
                 | some d => coreLoop O lines f (i + 1) (s.modCur fun p => { p with execute := p.execute ++ [d] })
                 | none => synErr i "@unhook requires exactly 2 arguments"
               else if strEq st "@join" then
-                let jid := cp.joinCount.getD 0
                 coreLoop O lines f (i + 1) (s.modCur fun p =>
-                  { p with joinCount := some (jid + 1)
-                           content := p.content ++ [.obj [("type", jstr "join_marker"), ("id", .num jid)]]
+                  { p with joinCount := some (cp.joinCount.getD 0 + 1)
+                           content := p.content ++ [.obj [("type", jstr "join_marker"), ("id", .num (cp.joinCount.getD 0))]]
                            curSection := some (p.curSection.getD 0 + 1) })
               else if sw st "->" then
                 match reMatch reJumpTop st with
@@ -178,31 +199,17 @@ def coreLoop (O : PyOracle) (lines : Lines) : Nat → Nat → PSt → PM PSt
                     { p with content := p.content ++ [.obj [("type", jstr "jump"), ("target", .str t), ("args", .str a)]] })
                 | none => coreLoop O lines f (i + 1) s
               else if sw line "~ " then do
-                let code := stmtCode (line.drop 2)
-                let (ls, n) ← liftPy "extract_multiline_expression" (multiline lines.toList i code)
-                let complete := joinNl ls
-                match O.stmt complete with
-                | .ok => coreLoop O lines f (i + n) (s.modCur fun p => { p with execute := p.execute ++ [stmtTok complete] })
+                let (ls, n) ← liftPy "extract_multiline_expression" (multiline lines.toList i (stmtCode (line.drop 2)))
+                match O.stmt (joinNl ls) with
+                | .ok => coreLoop O lines f (i + n) (s.modCur fun p => { p with execute := p.execute ++ [stmtTok (joinNl ls)] })
                 | .syntaxError ln => synErr (i + (match ln with | some k => k - 1 | none => 0)) "Invalid Python Syntax"
                 | .tooComplex => synErr i "Python statement is too complex to parse"
-                | .miss => .error (.oracleMiss complete)
-              else if sw line "+ " || sw line "* " then do
-                let sec := cp.curSection.getD 0
-                let s := s.modCur fun p => { p with curSection := some sec }
-                match (← liftPy "validate_choice_syntax" (validateChoice line)) with
-                | some _ => synErr i "Malformed Choice"
-                | none => pure ()
-                match (← parseChoiceLine line) with
-                | none => synErr i "Internal Error: Choice validation passed but parsing failed"
-                | some ch =>
-                  let ch := ch ++ [("section", .num sec)]
-                  if (ch.lookup "target").bind (fun j => match j with | .str t => some (strEq t "@join") | _ => none) == some true then do
-                    let (bc, be, n) ← extractJoinBlock lines (i + 1) (indentOf line)
-                    let ch := ch ++ (if bc.isEmpty then [] else [("block_content", .arr bc)])
-                                 ++ (if be.isEmpty then [] else [("block_execute", .arr be)])
-                    coreLoop O lines f (i + n + 1) (s.modCur fun p => { p with choices := p.choices ++ [.obj ch] })
-                  else
-                    coreLoop O lines f (i + 1) (s.modCur fun p => { p with choices := p.choices ++ [.obj ch] })
+                | .miss => .error (.oracleMiss (joinNl ls))
+              else if sw line "+ " || sw line "* " then
+                do
+                let (ch, n) ← topChoice lines i line (cp.curSection.getD 0)
+                coreLoop O lines f (i + n + 1) (s.modCur fun p =>
+                  { p with curSection := some (cp.curSection.getD 0), choices := p.choices ++ [ch] })
               else if !st.isEmpty then do
                 let t ← contentLineGlue line (some i)
                 coreLoop O lines f (i + 1) (s.modCur fun p => { p with content := p.content ++ t })
@@ -270,14 +277,25 @@ def validateCall (O : PyOracle) (passages : List (Line × PPassage)) (target arg
             else if (names.take npos).any (fun n => kws.contains n) then synErrNoLoc "both positional and keyword"
             else pure ()
 
+/-- the choices of one passage, then its top-level jumps -/
+def validateChoices (O : PyOracle) (passages : List (Line × PPassage)) : List J → PM Unit
+  | [] => pure ()
+  | ch :: rest => do
+    validateCall O passages ((jGetStr ch "target").getD []) ((jGetStr ch "args").getD [])
+    validateChoices O passages rest
+
+def validateJumps (O : PyOracle) (passages : List (Line × PPassage)) : List J → PM Unit
+  | [] => pure ()
+  | t :: rest => do
+    if jGetStr t "type" == some "jump".toList then
+      validateCall O passages ((jGetStr t "target").getD []) ((jGetStr t "args").getD [])
+    validateJumps O passages rest
+
 def validateArgs (O : PyOracle) (passages : List (Line × PPassage)) : List (Line × PPassage) → PM Unit
   | [] => pure ()
   | (_, p) :: rest => do
-    for ch in p.choices do
-      validateCall O passages ((jGetStr ch "target").getD []) ((jGetStr ch "args").getD [])
-    for t in p.content do
-      if jGetStr t "type" == some "jump".toList then
-        validateCall O passages ((jGetStr t "target").getD []) ((jGetStr t "args").getD [])
+    validateChoices O passages p.choices
+    validateJumps O passages p.content
     validateArgs O passages rest
 
 /-- `parse(source)` -/
